@@ -213,7 +213,12 @@ func c15Focus(c *vh.Ctx, g *vh.Gen, lines *c15Lines) {
 	c.Res.Notes = append(c.Res.Notes, fmt.Sprintf("focused stream: %d hierarchy-rich schemas, %d policies (in-lub-guard / singleton-caps / lub-attr / in-operand-type / action-in-mixed / clause-caps in turn), accepted strict %v permissive %v, %d evaluations; multi-type `in` tests true on a store of the target environment: %d of %d policies (membership-possible entity variants: %d of %d; action sets whose non-literal element is the request action or a group of it: %d of %d)",
 		done, st.generated, accS, accP, st.evals, probeTrue, probePolicies, probeReachTrue, probeReach, probeActTrue, probeAct))
 	// ---- self-tests ----
+	var margins []string
+	defer func() {
+		c.Res.Notes = append(c.Res.Notes, "focused stream self-test (got/required): "+strings.Join(margins, "; "))
+	}()
 	need := func(label string, got, min int) {
+		margins = append(margins, fmt.Sprintf("%s %d/%d", label, got, min))
 		if got < min {
 			c.Report(vh.Finding{Class: "generator-collapse", What: fmt.Sprintf("focused stream too thin: %s = %d (< %d)", label, got, min), Check: "self-test", NoInput: true})
 		}
